@@ -40,6 +40,12 @@ func readVolume(volumeBytes []byte) (volume, error) {
 	// TODO: Check count of files saved in volume set, and other
 	// offsets and bytes.
 
+	// Each entry takes up at least sizeOfFileEntryHeader() bytes,
+	// so this bounds the allocation below by the input size.
+	if header.FileCount > uint64(buf.Len())/sizeOfFileEntryHeader() {
+		return volume{}, errors.New("invalid file count")
+	}
+
 	entries := make([]fileEntry, header.FileCount)
 	var setHashInput []byte
 	for i := uint64(0); i < header.FileCount; i++ {
